@@ -60,7 +60,9 @@ func c16Invalidations() []invDev {
 	pre("scheme-uppercase", "scheme", "", func(r *reqSpec) { r.scheme = "NOTARY.X509" })
 	// signer
 	post("signer-nil", "signer", "", "", func(r *reqSpec, req *signature.SignRequest, rs *envenc.RemoteSigner) { req.Signer = nil })
-	post("remote-keyspec-error", "signer", "", "remote", func(r *reqSpec, req *signature.SignRequest, rs *envenc.RemoteSigner) { rs.SpecErr = errors.New("no key") })
+	post("remote-keyspec-error", "signer", "", "remote", func(r *reqSpec, req *signature.SignRequest, rs *envenc.RemoteSigner) {
+		rs.SpecErr = errors.New("no key")
+	})
 	post("remote-keyspec-zero", "signer", "", "remote", func(r *reqSpec, req *signature.SignRequest, rs *envenc.RemoteSigner) { rs.Spec = signature.KeySpec{} })
 	post("remote-keyspec-unsupported-size", "signer", "", "remote", func(r *reqSpec, req *signature.SignRequest, rs *envenc.RemoteSigner) { rs.Spec.Size = 1024 })
 	post("remote-keyspec-other-size-than-leaf", "signer", "", "remote", func(r *reqSpec, req *signature.SignRequest, rs *envenc.RemoteSigner) {
@@ -77,10 +79,14 @@ func c16Invalidations() []invDev {
 			rs.Spec = signature.KeySpec{Type: signature.KeyTypeEC, Size: 256}
 		}
 	})
-	post("remote-sign-error", "signer", "", "remote", func(r *reqSpec, req *signature.SignRequest, rs *envenc.RemoteSigner) { rs.SignErr = errors.New("hsm unavailable") })
+	post("remote-sign-error", "signer", "", "remote", func(r *reqSpec, req *signature.SignRequest, rs *envenc.RemoteSigner) {
+		rs.SignErr = errors.New("hsm unavailable")
+	})
 	// chains returned by the signer
 	post("remote-chain-nil", "chain", "", "remote", func(r *reqSpec, req *signature.SignRequest, rs *envenc.RemoteSigner) { rs.Chain = nil })
-	post("remote-chain-empty", "chain", "", "remote", func(r *reqSpec, req *signature.SignRequest, rs *envenc.RemoteSigner) { rs.Chain = []*x509.Certificate{} })
+	post("remote-chain-empty", "chain", "", "remote", func(r *reqSpec, req *signature.SignRequest, rs *envenc.RemoteSigner) {
+		rs.Chain = []*x509.Certificate{}
+	})
 	post("remote-chain-reversed", "chain", "", "remote", func(r *reqSpec, req *signature.SignRequest, rs *envenc.RemoteSigner) {
 		rs.Chain = []*x509.Certificate{rs.Chain[1], rs.Chain[0]}
 	})
@@ -139,7 +145,9 @@ func c16Invalidations() []invDev {
 		req.Signer = ls
 	})
 	// extended attributes
-	attr := func(k any, crit bool, v any) signature.Attribute { return signature.Attribute{Key: k, Critical: crit, Value: v} }
+	attr := func(k any, crit bool, v any) signature.Attribute {
+		return signature.Attribute{Key: k, Critical: crit, Value: v}
+	}
 	post("ext-duplicate-key", "ext", "", "", func(r *reqSpec, req *signature.SignRequest, rs *envenc.RemoteSigner) {
 		req.ExtendedSignedAttributes = []signature.Attribute{attr("io.example.a", true, 1), attr("io.example.a", false, 2)}
 	})
